@@ -41,6 +41,19 @@ func iterSpec(c [][3]int) string {
 	return strings.Join(ps, ",")
 }
 
+// iterMeaning: the chunks (offset, length) an iterate chain visits on n bytes.
+func iterMeaning(n int, c [][3]int) string {
+	var vs []string
+	p := 0
+	for _, b := range c {
+		for n-p >= b[0] {
+			vs = append(vs, fmt.Sprintf("(%d,%d)", p, b[0]))
+			p += b[1]
+		}
+	}
+	return "v " + strings.Join(vs, "")
+}
+
 func iterateCheck(r *hlib.Run, tc *toolchain) {
 	var src strings.Builder
 	src.WriteString("pub struct it?(\n    cnt : base.u32,\n    log : array[64] base.u8,\n    tag : array[64] base.u8,\n)\n\n")
@@ -117,7 +130,13 @@ func iterateCheck(r *hlib.Run, tc *toolchain) {
 			i++
 			r.Op(fmt.Sprintf("iterchain %d %s", n, iterSpec(c)), got)
 			r.Count("iterate:runs")
-			_ = k
+			// the property's own oracle (independent of the Lean model): what
+			// doc/note/iterate-loops.md says the loop means — block after block,
+			// chunks of the block's length while that many bytes remain
+			if want := iterMeaning(n, c); got != want && got != "abort" {
+				r.Fail("iterate:visits-differ", fmt.Sprintf("iterate chain %s on a %d-byte slice visits other chunks than the source means:\n  C:        %s\n  expected: %s",
+					iterSpec(c), n, got, want), fmt.Sprintf("// method r%d of the package below, called on the %d bytes 0,1,…\n%s", k, n, src.String()))
+			}
 		}
 	}
 }
